@@ -178,10 +178,28 @@ fn fixed_state_sweeps() -> Vec<Value> {
     sweep_cases(2, 300)
 }
 
+
+fn gen_per_element() -> BoxedStrategy<Value> {
+    let cfg = rules::Cfg::new(&["===", "!==", "===", "!==", "+", "merge", "cat", "if", "var", "-"]).leaf(gen::cmp_values()).poison(0).bad_arity(0);
+    per_element_cases(rules::rooted(cfg), prop_oneof![2 => gen::data_docs(), 2 => super::c13::twin_scalars()].boxed())
+}
+
 pub fn property() -> Property {
     Property {
         id: "C08",
         subs: vec![
+            Sub {
+                name: "per_element",
+                about: "this property's operators inside an expression used as the body of map / filter / all / some / none over 2-5 different elements: element by element the outcome must be what the expression gives on that element alone (model-free per-element law); catches anything the shared evaluation machinery remembers from one element to the next.",
+                nontrivial: "the expression gives different results on different elements.",
+                strategy: Some(gen_per_element),
+                fixed: None,
+                fixed_exhaustive: false,
+                check: per_element_law,
+                quick: 40_000,
+                thorough: 2_000_000,
+                small_stack: false,
+            },
             Sub {
                 name: "state_sweep",
                 about: "accumulated state: for every W in 1..300 and each kind of keyed work of this operator family (distinct strings against data, integers against computed numbers), W hot items are evaluated twice, then a new item, the hot set again, another new item, and everything in reverse; every call against the reference model - a cache, pool or table with any capacity up to 300 is driven exactly over its boundary.",
